@@ -771,7 +771,7 @@ func (g *gen) specCall(e *env, n *ast.CallExpr, want string, c *Clause) T {
 		}
 		o, _ := constant.Int64Val(ov)
 		i, _ := constant.Int64Val(iv)
-		as, ok := g.callArgsRec[fmt.Sprintf("%s#%d", cn, o)]
+		as, ok := lookupCall(g.callArgsRec, cn, o)
 		if !ok || int(i) >= len(as) {
 			return fail("no recorded argument %d of call#%d %s at this point", i, o, cn)
 		}
@@ -789,7 +789,7 @@ func (g *gen) specCall(e *env, n *ast.CallExpr, want string, c *Clause) T {
 		}
 		o, _ := constant.Int64Val(ov)
 		i, _ := constant.Int64Val(iv)
-		rs, ok := g.callResults[fmt.Sprintf("%s#%d", cn, o)]
+		rs, ok := lookupCall(g.callResults, cn, o)
 		if !ok || int(i) >= len(rs) {
 			return fail("no recorded result %d of call#%d %s at this point", i, o, cn)
 		}
